@@ -110,6 +110,14 @@ func plan(tier string, seed int64) []driver.Case {
 				cases = append(cases, driver.Case{ID: fmt.Sprintf("seq-deep/%s/%d", e.Name, i), P: map[string]string{"kind": "seq", "entry": e.Name, "scripts": key(t), "sample": "12", "seed": fmt.Sprint(rng.Int63())}})
 			}
 		}
+		// operators that store values: one long script for the main source (6 values: the slices they build grow
+		// through capacities 1, 2, 4, 8 and are handed out with spare capacity), sampled arrival orders
+		if e.Flags.Has(catalog.Stores) && e.NSrc == 2 {
+			long := []src.Script{src.Parse("10 11 12 13 14 15 C"), src.Parse("20 21 22 C")}
+			for i := 0; i < 3; i++ {
+				cases = append(cases, driver.Case{ID: fmt.Sprintf("seq-long/%s/%d", e.Name, i), P: map[string]string{"kind": "seq", "entry": e.Name, "scripts": key(long), "sample": "40", "seed": fmt.Sprint(rng.Int63())}})
+			}
+		}
 		if e.Flags.Has(catalog.Blocks) {
 			continue
 		}
@@ -367,6 +375,12 @@ func runSeq(c driver.Case) driver.Result {
 			if m := exp.Match(h.rec.Events()); m != "" {
 				return fail("C05/"+canon(e.Family)+"/output-differs-after-step", fmt.Sprintf("after step %d (%s): %s", step, ev, m))
 			}
+			// the consumer appends to the slices it has been handed so far (spare capacity only): what the
+			// operator still holds must not live in the backing array of something it has delivered
+			h.rec.ScribbleAll()
+			if mut := h.rec.Mutated(); len(mut) > 0 {
+				return fail("C05/"+canon(e.Family)+"/delivered-value-modified-later", fmt.Sprintf("after step %d (%s): %s", step, ev, strings.Join(mut, "; ")))
+			}
 			if st.Done() {
 				// the output ended: every source that was subscribed must have been released
 				if e.Flags.Has(catalog.Blocks) {
@@ -551,6 +565,21 @@ func runConc(c driver.Case) driver.Result {
 // classify names the anomaly class of an unexplained concurrent trace (used in
 // the finding key so that a different anomaly at the same operator is a new alarm).
 func classify(per [][]cev, obs []rec.Event) string {
+	// the terminal is of a kind no source issued: a failure turned into a completion or the reverse
+	issued := map[rec.Kind]bool{}
+	for _, evs := range per {
+		for _, ev := range evs {
+			issued[ev.N.K] = true
+		}
+	}
+	for _, o := range obs {
+		if o.Kind == rec.Complete && !issued[rec.Complete] {
+			return "error-replaced-by-completion"
+		}
+		if o.Kind == rec.Error && !issued[rec.Error] {
+			return "completion-replaced-by-error"
+		}
+	}
 	emitted := map[string]int{} // value → source
 	for i, evs := range per {
 		for _, ev := range evs {
@@ -741,6 +770,7 @@ func main() {
 		Setup: func() {
 			rec.Install()
 			sched.Install()
+			rec.DefaultScribble = true
 		},
 		Exhaustive: func(tier string) string {
 			if tier == "thorough" {
